@@ -628,6 +628,7 @@ func (ex *Exec) step(st *State, instr ssa.Instruction) bool {
 		if ex.inHarness(st) {
 			o.Ghost = true
 		}
+		o = ex.adopt(st, o)
 		return adv(in, ex.ptrTo(o), true)
 	case *ssa.BinOp:
 		v, ok := ex.binop(st, in)
@@ -709,14 +710,14 @@ func (ex *Exec) step(st *State, instr ssa.Instruction) bool {
 		v, ok := ex.makeSlice(st, in)
 		return adv(in, v, ok)
 	case *ssa.MakeMap:
-		o := ex.newObj(OMap, in.Type(), ex.posString(in.Pos()))
+		o := ex.adopt(st, ex.newObj(OMap, in.Type(), ex.posString(in.Pos())))
 		return adv(in, ex.ptrTo(o), true)
 	case *ssa.MakeChan:
 		n, ok := ex.concretize(st, ex.getTerm(st, in.Size), "chan size")
 		if !ok {
 			panic(ex.unsupported("make(chan) with symbolic size"))
 		}
-		o := ex.newChan(in.Type().Underlying().(*types.Chan).Elem(), int(n), ex.posString(in.Pos()))
+		o := ex.adopt(st, ex.newChan(in.Type().Underlying().(*types.Chan).Elem(), int(n), ex.posString(in.Pos())))
 		return adv(in, ex.ptrTo(o), true)
 	case *ssa.Lookup:
 		v, ok := ex.lookup(st, in)
@@ -751,7 +752,7 @@ func (ex *Exec) step(st *State, instr ssa.Instruction) bool {
 		}
 		gt, gf := tb.And(st.G, c), tb.And(st.G, tb.Not(c))
 		inLoop := len(st.top().fi.loops[in.Block()]) > 0
-		if ex.FeasAll || inLoop {
+		if ex.FeasAll || (inLoop && ex.sched == nil) {
 			if !ex.feasible(gt) {
 				gt = tb.False
 			} else if !ex.feasible(gf) {
@@ -951,7 +952,7 @@ func (ex *Exec) makeSlice(st *State, in *ssa.MakeSlice) (Value, bool) {
 	}
 	if isByteType(elem) {
 		if cc, ok := ex.termInt64(cp); !ok || cc > 64 {
-			o := ex.newSymBytes(cp, ex.posString(in.Pos()))
+			o := ex.adopt(st, ex.newSymBytes(cp, ex.posString(in.Pos())))
 			return ex.mkSlice(o, ex.idxConst(0), ln, cp), true
 		}
 	}
@@ -962,7 +963,7 @@ func (ex *Exec) makeSlice(st *State, in *ssa.MakeSlice) (Value, bool) {
 	if cc > 4096 {
 		panic(ex.unsupported("make([]%s, %d) too large", elem, cc))
 	}
-	o := ex.newVec(elem, int(cc), ex.posString(in.Pos()))
+	o := ex.adopt(st, ex.newVec(elem, int(cc), ex.posString(in.Pos())))
 	return ex.mkSlice(o, ex.idxConst(0), ln, ex.idxConst(cc)), true
 }
 
